@@ -346,6 +346,11 @@ fn run_random(ctx: &mut Ctx, rng: &mut Rng, _index: u64) {
 // ---- large: chunks straddling the 64 KiB internal buffer -------------------------------------
 
 fn run_large(ctx: &mut Ctx, rng: &mut Rng, index: u64) {
+    if crate::framework::small_mode() {
+        // too slow under an interpreter: covered by the native run
+        ctx.gray();
+        return;
+    }
     let first = *rng.pick(&[65_535usize, 65_536, 65_537, 131_071, 131_072, 131_073, 140_000, 200_001]);
     let tail: Vec<usize> = match rng.below(4) {
         0 => vec![],
